@@ -392,16 +392,21 @@ Definition mesh_fake (xa ya : option Z) (dx dy : Z) (xc yc : list fv)
   | [] => None
   end.
 
-(* case = (enable, mask, xs, ys, xacc, yacc, kd, none): xacc / yacc = None,
-   Some 0 or Some k; kd = node count of the default spacing *)
+(* exp on the encoding of logf_enc: log(k/8) is written (0,k) *)
+Definition expf_enc (v : fv) : fv := v.
+
+(* case = (enable, mask, sx, sy, xs, ys, xacc, yacc, kd, none): xacc / yacc =
+   None, Some 0 or Some k; kd = node count of the default spacing.  On a log
+   axis the harness uses 2 nodes (the end points: they are exact in the
+   encoding, interior nodes of a logarithmic grid are not dyadic) *)
 Definition contour_flat
-           (case : bool * list bool * list fv * list fv * option Z *
+           (case : bool * list bool * Z * Z * list fv * list fv * option Z *
                    option Z * Z * bool) : list Z :=
-  let '(enable, mask, xs, ys, xa, ya, kd, none) := case in
+  let '(enable, mask, sx, sy, xs, ys, xa, ya, kd, none) := case in
   let fall := filter_all enable mask xs in
-  match kde_contour fv fnan logf_enc logf_enc bool fake_core_b
+  match kde_contour fv fnan logf_enc expf_enc bool fake_core_b
                     (fun b => b) fone Z (fun _ => kd) mesh_fake fall none
-                    Lin Lin xa ya xs ys with
+                    (scale_of sx) (scale_of sy) xa ya xs ys with
   | None => [1]
   | Some (mx, my, dens) =>
       0 :: zlen mx :: flat_map enc_fv mx ++ flat_map enc_fv my
@@ -418,13 +423,14 @@ Definition dsgrid_fake (xs ys : list fv) (samples : Z) (rm : bool)
                 then Z.even (snd x + snd y + samples)
                 else negb rm) (combine xs ys).
 
-(* case = (enable, mask, xs, ys, samples, rm) *)
-Definition down_flat (case : bool * list bool * list fv * list fv * Z * bool)
+(* case = (enable, mask, sx, sy, xs, ys, samples, rm) *)
+Definition down_flat
+           (case : bool * list bool * Z * Z * list fv * list fv * Z * bool)
   : list Z :=
-  let '(enable, mask, xs, ys, samples, rm) := case in
+  let '(enable, mask, sx, sy, xs, ys, samples, rm) := case in
   let fall := filter_all enable mask xs in
-  let '(px, py, m) := downsampled logf_enc dsgrid_fake fall Lin Lin samples
-                                  rm xs ys in
+  let '(px, py, m) := downsampled logf_enc dsgrid_fake fall (scale_of sx)
+                                  (scale_of sy) samples rm xs ys in
   zlen px :: flat_map enc_fv px ++ flat_map enc_fv py
     ++ map (fun b : bool => if b then 1 else 0) m.
 
